@@ -73,6 +73,9 @@ def modify_rules(ctx):
         if not runs:
             ctx.broken("no feasible path through " + f.label)
         seen_val = set()
+        if any(e[0] == "unknown-atomic" for r in runs for e in r.events):
+            ctx.unknown("C03: %s performs atomic operations through an alias the path interpreter cannot resolve" % f.label)
+            continue
         for r in runs:
             ev = r.events
             site = f.where
@@ -148,6 +151,10 @@ def reader_rules(ctx):
         except TooManyPaths:
             ctx.broken("too many paths in " + f.label)
         vals = set()
+        if any(e[0] == "unknown-atomic" for r in runs for e in r.events):
+            ctx.unknown("C03.reader: %s performs atomic operations through an alias the path interpreter cannot resolve; "
+                        "the reader rules cannot be applied to this shape" % f.label)
+            continue
         for r in runs:
             ev = [e for e in r.events if e[0] in ("load", "rmw", "handle", "store")]
             handles = [e for e in ev if e[0] == "handle"]
